@@ -1,2 +1,3 @@
 pub mod chaos;
 pub mod driver;
+pub mod sim;
